@@ -255,7 +255,7 @@ func (e *Engine) driverA(t *core.Tape, cfg *core.Config, st *core.Stats, enumSch
 		na := t.Choose(4)
 		if strings.HasPrefix(bodies[who[i]], "BV") {
 			// vararg bodies are given long argument lists (counts around the byte and operand-size boundaries)
-			na = []int{1, 2, 3, 50, 127, 128, 254, 255, 256, 257, 300, 511, 512, 513}[t.Choose(14)]
+			na = []int{0, 1, 2, 3, 4, 50, 127, 128, 254, 255, 256, 257, 300, 511, 512, 513}[t.Choose(16)]
 			st.Probe("resume_with_many_values")
 		}
 		for j := 0; j < na; j++ {
@@ -447,7 +447,7 @@ func DebugA(draws []uint32, aux []int64) {
 		who[i] = t.Choose(n)
 		na := t.Choose(4)
 		if strings.HasPrefix(bodies[who[i]], "BV") {
-			na = []int{1, 2, 3, 50, 127, 128, 254, 255, 256, 257, 300, 511, 512, 513}[t.Choose(14)]
+			na = []int{0, 1, 2, 3, 4, 50, 127, 128, 254, 255, 256, 257, 300, 511, 512, 513}[t.Choose(16)]
 		}
 		for j := 0; j < na; j++ {
 			sched[i] = append(sched[i], float64(10*(i+1)+j))
